@@ -228,7 +228,9 @@ class DependencyGraph:
             shape_dict[action_id] = mb.create_shape(
                 shape_type=shape_types["ACTION"],
                 content=node["description"] if "description" in node else node["id"],
-                fill_color=self.party_colors[parse_ref_id(node["party"])]
+                fill_color=self.party_colors[
+                    self._resolve_ref(node["party"], "parties", "name")["name"]
+                ]
                 if "party" in node
                 else self._default_node_color,
                 x=x,
